@@ -226,6 +226,21 @@ func (m *Mon) updateLedgers(sc *StepCtx) {
 				a.ParamsSame = false
 			}
 		}
+		// C11: when the one pending event of a running context is an expiry, it is the expiry
+		// of its current batch (issued at H under timeout T: H+T), not of a batch that never was
+		if rc.State == types.RUNNING && !t.Restarted && len(post.ExpQ[id]) == 1 && len(post.NewQ[id]) == 0 {
+			e := post.ExpQ[id][0]
+			n := len(t.Advances)
+			switch {
+			case rc.BatchCounter == 0:
+				m.fail(sc, "C11", "Q4-expiry-of-current-batch", "no-batch", "running context %.16s waits only for an expiry at %d but never issued a batch (after %s)", id, e, sc.Step.Desc)
+			case n > 0 && t.Advances[n-1].Counter == rc.BatchCounter:
+				m.hit("C11", "Q4-expiry-of-current-batch", fmt.Sprintf("rep%v/mod%v", rc.Repeated, rc.ModuleName != ""))
+				if a := t.Advances[n-1]; e != a.H+a.Timeout {
+					m.fail(sc, "C11", "Q4-expiry-of-current-batch", "other-height", "running context %.16s waits only for an expiry at %d, but its current batch %d was issued at %d with timeout %d (after %s)", id, e, rc.BatchCounter, a.H, a.Timeout, sc.Step.Desc)
+				}
+			}
+		}
 	}
 	for id := range pre.Contexts {
 		if _, ok := post.Contexts[id]; !ok {
